@@ -129,13 +129,32 @@ def probe_ident_source(dialect, parts):
                 parts=list(parts), text=txt, got=list(got), classes=[], **{'class': 'ident-source/%s/NEW' % dialect})
 
 
+ID_WORD = re.compile(r'[a-zA-Z_$0-9]*[a-zA-Z_$]+[a-zA-Z_$0-9]*')
+
+
+def plain_source_ok(word, kwset):
+    """an unquoted word that the ID rule must take as a whole: ASCII ID shape, and neither the word nor its
+    prefix before the first `$` (a `\\b` boundary) is a keyword"""
+    return bool(ID_WORD.fullmatch(word)) and word.upper() not in kwset and word.split('$')[0].upper() not in kwset
+
+
+def probe_ident_plain(dialect, parts):
+    """P4b: an unquoted dotted path denotes exactly its written parts (no part is cut, no implicit alias)"""
+    txt = '.'.join(parts)
+    got = lexh.observe_select(dialect, txt)
+    if got == ('ident', list(parts)):
+        return None
+    return dict(kind='ident-plain', desc='unquoted path %r is read as %r, denotes %r' % (txt, got, parts), dialect=dialect,
+                parts=list(parts), text=txt, got=list(got), classes=[], **{'class': 'ident-plain/%s/NEW' % dialect})
+
+
 def probe_number(dialect, v):
-    """P5: numbers print to text that reads back as the same number; source digits denote their value"""
+    """P5: numbers print to text that reads back as exactly the same number (same type; floats bit-exact)"""
     from mindsdb_sql.parser.ast import Constant
     txt = Constant(v).to_string()
     got = lexh.observe_select(dialect, txt)
     kind = 'int' if isinstance(v, int) else 'float'
-    if got == (kind, v):
+    if got[0] == kind and type(got[1]) is type(v) and got[1] == v and repr(got[1]) == repr(v):
         return None
     cls = ['float-exponent-repr'] if isinstance(v, float) and ('e' in txt or 'inf' in txt or 'nan' in txt) else []
     return dict(kind='number', desc='Constant(%r) prints %r, read back as %r' % (v, txt, got), dialect=dialect, value=v,
@@ -155,7 +174,8 @@ def probe_number_source(dialect, txt):
 
 
 # ------------------------------------------------------------------------------------------ streams
-WORDS = ['a', 'B1', '_x', '1a', '1', 'x$', 'é', 'a b', 'a.b', 'ıf', 'Ab', 'a-b', '*', '"a"', "'a'", 'a\nb', ' ',
+PLAIN_WORDS = ['t1$id', 'tbl1$x', '1a$b', 'a$', '$a', '$', 'a$$b', '1$', '$1', 'a$1', 'A_1$b2', 'x', 'Ab', '_x', '1a', 'a1', '9_', 'col$']
+WORDS = PLAIN_WORDS + ['a', 'B1', '_x', '1a', '1', 'x$', 'é', 'a b', 'a.b', 'ıf', 'Ab', 'a-b', '*', '"a"', "'a'", 'a\nb', ' ',
          'KNOWLEDGE BASE', 'charset', 'ſet', 'select$x', 'İf', 'tAbLe', 'a`b', '', '\u212aey', 'a\u212a']
 
 
@@ -427,10 +447,35 @@ def run(chk):
             f = probe_ident_source(d, parts)
             if f:
                 record(f)
+    # unquoted source paths with `$`, digits-first, `$` after a digit (all three dialects)
+    rngp = common.rng_for(chk.seed, 'C04/plain')
+    for d in DIALECTS:
+        kwset = set(w.upper() for w in keyword_words(S, d))
+        pool = [w for w in PLAIN_WORDS if plain_source_ok(w, kwset)]
+        pool += [w for w in (lexh.random_string(rngp, 1, 6, alphabet=['a', 'B', '1', '7', '_', '$', 'x', 'd'])
+                             for _ in range(150 if quick else 3000)) if plain_source_ok(w, kwset)]
+        cases = [[w] for w in pool] + [['t', w] for w in pool] + [[w, 'c'] for w in pool] + \
+                [[rngp.choice(pool) for _ in range(rngp.randint(2, 3))] for _ in range(100 if quick else 2000)]
+        for parts in cases:
+            chk.count(('plain', d, tuple(parts)))
+            f = probe_ident_plain(d, parts)
+            bump('P4b/%s/%s' % (d, 'fail' if f else 'ok'))
+            if f:
+                record(f)
     rngn = common.rng_for(chk.seed, 'C04/numbers')
-    nums = [0, 1, 7, 10, 2 ** 31, 2 ** 63, 10 ** 30, 1.5, 0.1, 0.5, 123456789.123, 0.00001, 1e22, 1e16, 2.5e-7, 1e15, 0.0001]
+    import math
+    nums = [0, 1, 7, 10, 2 ** 31, 2 ** 63, 10 ** 30, -1, -5, -(10 ** 20), 1.5, 0.1, 0.5, 123456789.123, 0.00001, 1e22, 1e16, 2.5e-7, 1e15, 0.0001]
+    # floats with 16-17 significant digits, values next to 1, tiny / huge, negative
+    nums += [0.30000000000000004, 0.7853981633974483, 0.9999999999999999, 1.0000000000000002, 0.1 + 0.7, 1 / 3, 2 / 3,
+             math.pi, math.e, math.sqrt(2), 123456.78901234567, 1234567890123456.0, 999999999999999.9, 0.001, 0.00011,
+             0.0001234567890123456, 5e-324, 1.7976931348623157e308, 1e-7, 123456789012345680.0, 4503599627370497.5,
+             -0.5, -1.5, -0.30000000000000004, -123.456, -1e-9, 100.0, 1.0, 0.0, 2.0 ** 52 + 0.5]
     nums += [rngn.randrange(10 ** rngn.randint(1, 30)) for _ in range(100 if quick else 3000)]
     nums += [round(rngn.uniform(0, 10 ** rngn.randint(0, 6)), rngn.randint(1, 6)) for _ in range(100 if quick else 3000)]
+    for _ in range(300 if quick else 10000):
+        r = rngn.random()
+        nums.append(rngn.choice([r, 1 - r / 1e6, r * 10 ** rngn.randint(-4, 15), -r, -r * 1000, math.ldexp(r, rngn.randint(-12, 50)),
+                                 float('%d.%s' % (rngn.randrange(1000), ''.join(rngn.choice('0123456789') for _ in range(rngn.randint(12, 17)))))]))
     for v in nums:
         for d in DIALECTS:
             chk.count(('num', d, v))
@@ -483,6 +528,8 @@ def replay_witness(w, kfwords=None):
         return probe_ident_source(w['dialect'], w['parts'])
     if kind == 'number':
         return probe_number(w['dialect'], w['value'])
+    if kind == 'ident-plain':
+        return probe_ident_plain(w['dialect'], w['parts'])
     if kind == 'number-source':
         return probe_number_source(w['dialect'], w['text'])
     return None
